@@ -47,6 +47,18 @@ PROPS["C12"] = dict(
                  "junk between messages contains no '8=' marker, per the statement"],
 )
 
+PROPS["C13"] = dict(
+    pkg="./props/codec", level="exploration", design_ref="DESIGN.md §3 C13",
+    technique="structural round trip: rapid-generated free templates through the API, and enumeration of every group of every shipped dictionary populated from an independent XML walk, parsed with and without the dictionary",
+    stages=[dict(name="free", kind="rapid", run="^TestC13_RapidFree$", checks=(3000, 60000), shards=(8, 16), timeout=(400, 2400)),
+            dict(name="dict", kind="plain", run="^TestC13_DictGroups$", shards=(12, 16), timeout=(400, 3000))],
+    require=["free:position-first", "free:position-middle", "free:position-last", "free:nested", "free:zero-entries",
+             "dict:wire/dict", "dict:api/dict", "dict:wire/nodict", "dict:nested", "dict:with-following-fields"],
+    assumptions=["a scalar whose tag is also defined inside a group of the same level is not generated (positionally ambiguous on the wire)",
+                 "dictionary groups are parsed with the dictionary that defines them (FIX50x bodies with FIXT11 as transport dictionary)",
+                 "population choices of the enumeration stage come from a PRNG seeded from (VERIF_SEED, pair index, variant); the replay file records them"],
+)
+
 NOT_APPLICABLE = {}
 
 HOOK_COMMITS = ["ce15100"]
